@@ -498,3 +498,5 @@ for _p in ("C06", "C07", "C08", "C12"):
     PROPS[_p].update(tie=["Tie"], tie_theorems=TIE_ACCESSORS + TIE_LAYOUT)
 PROPS["C01"].update(tie=["Tie", "TieFraming"], tie_theorems=[_T + "tie_GetString"] + TIE_READ + TIE_FRAMING)
 PROPS["C17"].update(tie=["TieWriter"], tie_theorems=TIE_WRITER)
+# an oversized message must be skipped and answered whatever the state of a server shutdown (forced schedules)
+_addcamp("C10", "close", 200, 6000)
